@@ -458,4 +458,366 @@ theorem pinv_next0 (s s' : St n) (t : Fin n) (b : Bool) (h : next0 s t b = some 
   ⟨(pinv_pre s s' t b h hl hp).1, (pinv_pre s s' t b h hl hp).2.1, (pinv_pre s s' t b h hl hp).2.2,
    (pinv_fresh s s' t b h hl hi hp).1, (pinv_fresh s s' t b h hl hi hp).2⟩
 
+/-! ### the PUBLISH count -/
+
+theorem nodup_map_snd (A : List (Chan × Conn)) (ch : Chan) (h : A.Nodup) :
+    ((A.filter (fun p => p.1 = ch)).map (·.2)).Nodup := by
+  induction A with
+  | nil => simp
+  | cons x xs ih =>
+    rw [List.nodup_cons] at h
+    rw [List.filter_cons]
+    split
+    · rename_i hx
+      rw [List.map_cons, List.nodup_cons]
+      refine ⟨?_, ih h.2⟩
+      intro hin
+      rw [List.mem_map] at hin
+      obtain ⟨p, hp, hp2⟩ := hin
+      rw [List.mem_filter] at hp
+      have e1 : p.1 = ch := by simpa using hp.2
+      have e2 : x.1 = ch := by simpa using hx
+      have : p = x := by
+        cases p; cases x; simp at e1 e2 hp2; simp [e1, e2, hp2]
+      exact h.1 (this ▸ hp.1)
+    · exact ih h.2
+
+/-- the specification's count is the length of the object's subscriber list -/
+theorem spec_count_eq (A : List (Chan × Conn)) (ch : Chan) (L : List Conn) (hA : A.Nodup) (hL : L.Nodup)
+    (hm : ∀ c, (ch, c) ∈ A ↔ c ∈ L) : (A.filter (fun p => p.1 = ch)).length = L.length := by
+  have h1 := nodup_map_snd A ch hA
+  have hp : ((A.filter (fun p => p.1 = ch)).map (·.2)).Perm L := by
+    rw [List.perm_ext_iff_of_nodup h1 hL]
+    intro c
+    rw [← hm c, List.mem_map]
+    constructor
+    · rintro ⟨p, hp, rfl⟩
+      rw [List.mem_filter] at hp
+      have e1 : p.1 = ch := by simpa using hp.2
+      rw [← e1]; exact hp.1
+    · intro h
+      exact ⟨(ch, c), List.mem_filter.2 ⟨h, by simp⟩, rfl⟩
+  have := hp.length_eq
+  simpa using this
+
+theorem specCount_of_rel (s : St n) (hR : RInv s) (ch : Chan) (L : List Conn) (hL : L.Nodup)
+    (hm : ∀ c, (∃ o, s.table ch = some o ∧ c ∈ s.subs o) ↔ c ∈ L) : specCount s.lin ch = L.length := by
+  unfold specCount
+  exact spec_count_eq _ ch L (run_inv _).nodup hL (fun c => (hR ch c).trans (hm c))
+
+structure ZInv (s : St n) : Prop where
+  z1 : ∀ u, (s.thr u).pc = .p2 none → (s.thr u).exp = 0
+  z2 : ∀ u o, sendObj (s.thr u).pc = some o → (s.thr u).lpd = true → (s.thr u).exp = 0
+
+theorem zinv_next0 (s s' : St n) (t : Fin n) (b : Bool) (h : next0 s t b = some s') (hl : LInv s) (hR : RInv s) (hp : PInv s)
+    (hz : ZInv s) : ZInv s' := by
+  have hk := hl.kind t
+  have h1 := hz.z1
+  have h2 := hz.z2
+  have hpre := hp.pre t
+  have hcnt := specCount_of_rel s hR
+  clear hz hp hl
+  constructor
+  · intro u
+    have h1' := h1 u
+    clear h1 h2
+    step_cases h
+    all_goals by_cases hu : u = t
+    all_goals (try subst hu)
+    all_goals (try have hu' : ¬ t = u := fun e => hu e.symm)
+    all_goals (try simp [*, setT, fin, upd] at *)
+    all_goals (first | assumption | skip)
+    · intro hh; split
+      · rfl
+      · exact h1' hh
+    · rename_i _ _ hpc htb
+      have := hcnt (s.thr u).cur.chan [] List.nodup_nil (fun c => by simp [htb])
+      simpa using this
+  · intro u o
+    have h2' := h2 u o
+    clear h1 h2
+    step_cases h
+    all_goals by_cases hu : u = t
+    all_goals (try subst hu)
+    all_goals (try have hu' : ¬ t = u := fun e => hu e.symm)
+    all_goals (try simp [*, setT, fin, upd] at *)
+    all_goals (first | assumption | skip)
+    intro h3 h4; split
+    · rfl
+    · rename_i hs; simp [hs] at h4; exact h2' h3 h4
+
+/-! ### every operation is linearized inside its interval, with the specification's reply -/
+
+/-- position `i ≥ lo` of the linearization holds the abstract operation of operation `tag`, and for a Send `val` is the
+    specification's count just before it -/
+def Wit (l : List (LinEv n)) (lo : Nat) (tag : Fin n × Nat) (op : Op) (val : Nat) : Prop :=
+  ∃ i, lo ≤ i ∧ l[i]? = some ⟨some tag, op.abs⟩ ∧ ∀ ch m, op = .send ch m → val = specCount (l.take i) ch
+
+theorem Wit.append {l : List (LinEv n)} {lo : Nat} {tag : Fin n × Nat} {op : Op} {val : Nat} (x : List (LinEv n))
+    (h : Wit l lo tag op val) : Wit (l ++ x) lo tag op val := by
+  obtain ⟨i, h1, h2, h3⟩ := h
+  have hi : i < l.length := by
+    rcases Nat.lt_or_ge i l.length with h | h
+    · exact h
+    · rw [List.getElem?_eq_none h] at h2; cases h2
+  refine ⟨i, h1, ?_, ?_⟩
+  · rw [List.getElem?_append_left hi]; exact h2
+  · intro ch m e
+    rw [List.take_append_of_le_length (Nat.le_of_lt hi)]
+    exact h3 ch m e
+
+theorem Wit.last (l : List (LinEv n)) (lo : Nat) (tag : Fin n × Nat) (op : Op) (val : Nat) (hlo : lo ≤ l.length)
+    (hv : ∀ ch m, op = .send ch m → val = specCount l ch) : Wit (l ++ [⟨some tag, op.abs⟩]) lo tag op val := by
+  refine ⟨l.length, hlo, by simp, ?_⟩
+  intro ch m e
+  rw [List.take_left']
+  · exact hv ch m e
+  · rfl
+
+/-- a completed operation: linearized at a position between the length of `lin` at its invocation and at its return, a Send's
+    reply being the specification's count at that position -/
+def RecOk (l : List (LinEv n)) (r : Rec n) : Prop :=
+  r.retLen ≤ l.length ∧ ∃ i, r.invLen ≤ i ∧ i < r.retLen ∧ l[i]? = some ⟨some (r.tid, r.k), r.op.abs⟩ ∧
+    ∀ ch m, r.op = .send ch m → r.reply = some (specCount (l.take i) ch)
+
+theorem RecOk.append {l : List (LinEv n)} {r : Rec n} (x : List (LinEv n)) (h : RecOk l r) : RecOk (l ++ x) r := by
+  obtain ⟨h0, i, h1, h2, h3, h4⟩ := h
+  have hi : i < l.length := Nat.lt_of_lt_of_le h2 h0
+  refine ⟨by rw [List.length_append]; exact Nat.le_trans h0 (Nat.le_add_right _ _), i, h1, h2, ?_, ?_⟩
+  · rw [List.getElem?_append_left hi]; exact h3
+  · intro ch m e
+    rw [List.take_append_of_le_length (Nat.le_of_lt hi)]
+    exact h4 ch m e
+
+theorem RecOk.ofWit (l : List (LinEv n)) (t : Fin n) (k : Nat) (op : Op) (reply : Option Nat) (exp invAt invLen clock : Nat)
+    (h : Wit l invLen (t, k) op exp) (hr : ∀ ch m, op = .send ch m → reply = some exp) :
+    RecOk l ⟨t, k, op, reply, exp, invAt, invLen, clock, l.length⟩ := by
+  obtain ⟨i, h1, h2, h3⟩ := h
+  have hi : i < l.length := by
+    rcases Nat.lt_or_ge i l.length with h | h
+    · exact h
+    · rw [List.getElem?_eq_none h] at h2; cases h2
+  refine ⟨Nat.le_refl _, i, h1, hi, h2, ?_⟩
+  intro ch m e
+  rw [hr ch m e, h3 ch m e]
+
+structure WInv (s : St n) : Prop where
+  invle : ∀ u, (s.thr u).invLen ≤ s.lin.length
+  lpw : ∀ u, (s.thr u).pc ≠ .idle → (s.thr u).lpd = true → Wit s.lin (s.thr u).invLen (u, (s.thr u).k) (s.thr u).cur (s.thr u).exp
+  recs : ∀ r ∈ s.done, RecOk s.lin r
+
+theorem winv_invle (s s' : St n) (t : Fin n) (b : Bool) (h : next0 s t b = some s') (hw : WInv s) :
+    ∀ u, (s'.thr u).invLen ≤ s'.lin.length := by
+  intro u
+  have h1 := hw.invle u
+  have h1t := hw.invle t
+  clear hw
+  step_cases h
+  all_goals by_cases hu : u = t
+  all_goals (try subst hu)
+  all_goals (try have hu' : ¬ t = u := fun e => hu e.symm)
+  all_goals (try (first | simp [setT, fin, upd, hu, hu'] | simp [setT, fin, upd]))
+  all_goals (first | assumption | omega | skip)
+
+theorem specCount_publishes (l x : List (LinEv n)) (ch : Chan) (h : ∀ op ∈ absLin x, isPublish op = true) :
+    specCount (l ++ x) ch = specCount l ch := by
+  unfold specCount
+  rw [absLin_append, run_publishes_subs _ _ h]
+
+/-- a Send that looked up object `o'` and has not locked it yet is linearized by the step that drops `o'` -/
+theorem helped_wit (s : St n) (o' : Obj) (u : Fin n) (hl : LInv s) (hi : SInv s) (hR : RInv s)
+    (hst : staleOn o' (s.thr u) = true) (htab : s.table (s.och o') = some o') (hemp : s.subs o' = [])
+    (hle : (s.thr u).invLen ≤ s.lin.length) :
+    Wit (s.lin ++ helped s o') (s.thr u).invLen (u, (s.thr u).k) (s.thr u).cur 0 := by
+  have hmem : (⟨some (u, (s.thr u).k), (s.thr u).cur.abs⟩ : LinEv n) ∈ helped s o' := by
+    unfold helped
+    rw [List.mem_map]
+    exact ⟨u, List.mem_filter.2 ⟨List.mem_finRange u, hst⟩, rfl⟩
+  obtain ⟨j, hj⟩ := List.mem_iff_getElem?.1 hmem
+  refine ⟨s.lin.length + j, Nat.le_trans hle (Nat.le_add_right _ _), ?_, ?_⟩
+  · rw [List.getElem?_append_right (Nat.le_add_right _ _)]
+    simpa using hj
+  · intro ch m e
+    have hpub : ∀ op ∈ absLin ((helped s o').take j), isPublish op = true := by
+      intro op hop
+      apply helped_publishes s o' hl op
+      simp only [absLin, List.mem_map] at hop ⊢
+      obtain ⟨a, ha, rfl⟩ := hop
+      exact ⟨a, List.mem_of_mem_take ha, rfl⟩
+    have htk : (s.lin ++ helped s o').take (s.lin.length + j) = s.lin ++ (helped s o').take j := by
+      rw [List.take_append, List.take_of_length_le (Nat.le_add_right _ _), Nat.add_sub_cancel_left]
+    rw [htk, specCount_publishes _ _ _ hpub]
+    have hch : s.och o' = ch := by
+      have := hi.pcch u o' (sendObj_pcObj _ _ ((stale_iff _ _).1 hst).1)
+      rw [e] at this; exact this
+    rw [hch] at htab
+    have := specCount_of_rel s hR ch [] List.nodup_nil (fun c => by
+      constructor
+      · rintro ⟨o, h1, h2⟩
+        rw [htab] at h1; cases h1
+        rw [hemp] at h2; cases h2
+      · intro h; cases h)
+    simpa using this.symm
+
+theorem winv_lpw (s s' : St n) (t : Fin n) (b : Bool) (h : next0 s t b = some s') (hl : LInv s) (hi : SInv s) (hR : RInv s)
+    (hp : PInv s) (hw : WInv s) :
+    ∀ u, (s'.thr u).pc ≠ .idle → (s'.thr u).lpd = true →
+      Wit s'.lin (s'.thr u).invLen (u, (s'.thr u).k) (s'.thr u).cur (s'.thr u).exp := by
+  intro u
+  have hk := hl.kind t
+  have h1 := hw.lpw u
+  have hle := hw.invle u
+  have hheld := hi.held t
+  have htab := hi.tab
+  have hhw := helped_wit s
+  clear hw
+  step_cases h
+  all_goals by_cases hu : u = t
+  all_goals (try subst hu)
+  all_goals (try have hu' : ¬ t = u := fun e => hu e.symm)
+  all_goals (try (first | simp [setT, fin, upd, hu, hu'] | simp [setT, fin, upd]))
+  all_goals (first | assumption | exact fun a b => (h1 a b).append _
+                   | (intro hb; exact h1 (by simp [*]) hb) | (intro hb; exact (h1 (by simp [*]) hb).append _)
+                   | (refine Wit.last _ _ _ _ _ hle ?_; intro ch m e; first | (simp [e, Op.chan]; done) | (exfalso; simp [*, opKind] at hk))
+                   | skip)
+  -- u3d: the drop; the stale Sends get their witness
+  rename_i _ o' hpc hemp
+  rw [hpc] at hheld
+  have hh := hheld o' rfl
+  have hh2 : s.table (s.och o') = some o' := by rw [htab _ _ hh]; exact hh
+  intro hne hb
+  by_cases hs : staleOn o' (s.thr u) = true
+  · simp only [hs, if_true]
+    exact hhw o' u hl hi hR hs hh2 hemp hle
+  · simp [hs] at hb ⊢
+    exact (h1 hne hb).append _
+
+theorem winv_recs (s s' : St n) (t : Fin n) (b : Bool) (h : next0 s t b = some s') (hl : LInv s) (hi : SInv s) (hR : RInv s)
+    (hp : PInv s) (hz : ZInv s) (hw : WInv s) : ∀ r ∈ s'.done, RecOk s'.lin r := by
+  have hk := hl.kind t
+  have h1 := hw.recs
+  have hlp := hw.lpw t
+  have hle := hw.invle t
+  have hpost := hp.post t
+  have hnone := hp.none0 t
+  have hz1 := hz.z1 t
+  have hz2 := hz.z2 t
+  have hstale := hp.stale t
+  have hfresh := hp.fresh t
+  have hcnt := specCount_of_rel s hR
+  clear hw
+  step_cases h
+  all_goals simp only [setT, fin]
+  all_goals (first | exact h1 | exact fun r hr => (h1 r hr).append _ | skip)
+  case h_24 => rename_i _ hpc; rw [hpc] at hk; simp at hk
+  case h_30 => rename_i _ _ hpc; rw [hpc] at hk; simp at hk
+  case h_7 =>
+    rename_i _ hpc
+    intro r hr
+    rw [List.mem_append] at hr
+    rcases hr with hr | hr
+    · exact h1 r hr
+    · simp only [List.mem_singleton] at hr; subst hr
+      refine RecOk.ofWit _ _ _ _ _ _ _ _ _ (hlp (by rw [hpc]; simp) (hpost (by rw [hpc]; rfl))) ?_
+      intro ch m e; rw [hpc, e] at hk; simp [opKind] at hk
+  case h_14 =>
+    rename_i _ hpc
+    intro r hr
+    rw [List.mem_append] at hr
+    rcases hr with hr | hr
+    · exact h1 r hr
+    · simp only [List.mem_singleton] at hr; subst hr
+      refine RecOk.ofWit _ _ _ _ _ _ _ _ _ (hlp (by rw [hpc]; simp) (hpost (by rw [hpc]; rfl))) ?_
+      intro ch m e; rw [hpc, e] at hk; simp [opKind] at hk
+  case h_17 =>
+    rename_i _ hpc
+    intro r hr
+    rw [List.mem_append] at hr
+    rcases hr with hr | hr
+    · exact h1 r hr
+    · simp only [List.mem_singleton] at hr; subst hr
+      refine RecOk.ofWit _ _ _ _ _ _ _ _ _ (hlp (by rw [hpc]; simp) (hnone hpc)) ?_
+      intro ch m e; rw [hz1 hpc]
+  case h_21.isTrue =>
+    rename_i _ o' sent hpc hlpd
+    intro r hr
+    rw [List.mem_append] at hr
+    rcases hr with hr | hr
+    · exact h1 r hr
+    · simp only [List.mem_singleton] at hr; subst hr
+      refine RecOk.ofWit _ _ _ _ _ _ _ _ _ (hlp (by rw [hpc]; simp) hlpd) ?_
+      intro ch m e
+      rw [hz2 o' (by rw [hpc]; rfl) hlpd]
+      have hst := hstale o' (by rw [hpc]; rfl) hlpd
+      have hch := hi.pcch t o' (by rw [hpc]; rfl)
+      have hemp := hi.dropped o' (by rw [hch]; exact hst)
+      have hloop := hi.loop t o' sent [] hpc
+      rw [hemp] at hloop
+      have : sent = [] := by simpa using hloop.symm
+      rw [this]; rfl
+  case h_21.isFalse =>
+    rename_i _ o' sent hpc hlpd
+    have hlpd' : (s.thr t).lpd = false := by simpa using hlpd
+    intro r hr
+    rw [List.mem_append] at hr
+    rcases hr with hr | hr
+    · exact (h1 r hr).append _
+    · simp only [List.mem_singleton] at hr; subst hr
+      have hfr := hfresh o' (by rw [hpc]; rfl) hlpd'
+      have hloop := hi.loop t o' sent [] hpc
+      have hnd := hi.nodup o'
+      rw [hloop] at hnd
+      simp only [List.append_nil] at hloop hnd
+      have hc := hcnt (s.thr t).cur.chan sent hnd (fun c => by
+        constructor
+        · rintro ⟨o, h1, h2⟩
+          rw [hfr] at h1; cases h1
+          rw [hloop] at h2; exact h2
+        · intro h; exact ⟨o', hfr, by rw [hloop]; exact h⟩)
+      refine RecOk.ofWit _ _ _ _ _ _ _ _ _ (Wit.last _ _ _ _ _ hle (fun ch m e => by simp [e, Op.chan])) ?_
+      intro ch m e
+      rw [hc]
+
+theorem winv_next0 (s s' : St n) (t : Fin n) (b : Bool) (h : next0 s t b = some s') (hl : LInv s) (hi : SInv s) (hR : RInv s)
+    (hp : PInv s) (hz : ZInv s) (hw : WInv s) : WInv s' :=
+  ⟨winv_invle s s' t b h hw, winv_lpw s s' t b h hl hi hR hp hw, winv_recs s s' t b h hl hi hR hp hz hw⟩
+
+/-! ### all invariants along every run -/
+
+structure AllInv (s : St n) : Prop where
+  l : LInv s
+  si : SInv s
+  r : RInv s
+  p : PInv s
+  z : ZInv s
+  w : WInv s
+
+theorem allinv_next0 (s s' : St n) (t : Fin n) (b : Bool) (h : next0 s t b = some s') (a : AllInv s) : AllInv s' :=
+  ⟨linv_next0 s s' t b h a.l, sinv_next0 s s' t b h a.l a.si, rinv_next0 s s' t b h a.l a.si a.r, pinv_next0 s s' t b h a.l a.si a.p,
+   zinv_next0 s s' t b h a.l a.r a.p a.z, winv_next0 s s' t b h a.l a.si a.r a.p a.z a.w⟩
+
+theorem allinv_frame (s : St n) (c : Nat) (d : Conn → Bool) (a : AllInv s) : AllInv { s with clock := c, dead := d } := by
+  obtain ⟨l, si, r, p, z, w⟩ := a
+  exact ⟨⟨l.tw, l.tr, l.trn, l.ow, l.kind, l.real⟩, ⟨si.lt, si.tab, si.pclt, si.pcch, si.held, si.nodup, si.dropped, si.loop⟩, r,
+    ⟨p.pre, p.post, p.none0, p.fresh, p.stale⟩, ⟨z.z1, z.z2⟩, ⟨w.invle, w.lpw, w.recs⟩⟩
+
+theorem allinv_step (s s' : St n) (h : Step s s') (a : AllInv s) : AllInv s' := by
+  cases h with
+  | thr _ t b h =>
+    obtain ⟨s1, h0, rfl⟩ := next_eq s s' t b h
+    exact allinv_frame s1 _ s1.dead (allinv_next0 s s1 t b h0 a)
+  | die c => exact allinv_frame s s.clock _ a
+
+theorem allinv_init (progs : Fin n → List Op) (hr : Real progs) : AllInv (init progs) := by
+  refine ⟨linv_init progs hr, sinv_init progs, ?_, ?_, ?_, ?_⟩
+  · intro ch c; simp [init, absLin, PubSub.run, PubSub.init]
+  · refine ⟨?_, ?_, ?_, ?_, ?_⟩ <;> simp [init]
+  · refine ⟨?_, ?_⟩ <;> simp [init]
+  · refine ⟨?_, ?_, ?_⟩ <;> simp [init]
+
+theorem allinv_reach (progs : Fin n → List Op) (hr : Real progs) (s : St n) (h : Reach progs s) : AllInv s := by
+  induction h with
+  | init => exact allinv_init progs hr
+  | step s s' _ hs ih => exact allinv_step s s' hs ih
+
 end PSC
